@@ -14,6 +14,7 @@ import OpmVerif.Proofs.Scan
 import OpmVerif.Proofs.RawConsts
 import OpmVerif.Proofs.LexMirror
 import OpmVerif.Proofs.RawKw
+import OpmVerif.Proofs.Relayout
 
 namespace OpmVerif.Props.C01
 open OpmVerif.Lex OpmVerif.Tok OpmVerif.Scan OpmVerif.RawKw
@@ -199,6 +200,48 @@ example : parseItems demoConv demoSchema [b "'W 1'", b "3*5", b "2*", b "1.5", b
           [(.str (b "OPEN"), .dflt)], [(.dummy, .empty)], [(.dbl (b "1.5"), .deck), (.dbl (b "0.25"), .deck), (.dbl (b "0.25"), .deck)]] := by decide +kernel
 example : (∀ t ∈ [b "'W 1'", b "2*5"], Simple t) ∧ totalWeight [b "'W 1'", b "2*5"] + 3 ≤ singlePrefix demoSchema := by decide +kernel
 example : parseItems demoConv demoSchema [b "'W 1'", b "2*5"] =
+    some [[(.str (b "W 1"), .deck)], [(.int 5, .deck)], [(.int 5, .deck)], [(.int 9, .dflt)],
+          [(.str (b "OPEN"), .dflt)], [(.dummy, .empty)], []] := by decide +kernel
+
+/-! ### all compositions of rewrites -/
+
+/-- `relayout_compose`: `Relayout items` is the closure (reflexive, symmetric, transitive) of
+the rewrite rules on the text of a record — separator runs / line breaks outside quotes,
+star expansion of a token, trailing `1*` — and every derivation, i.e. every composition of
+rewrites in any order and number, leaves the parsed record (items, values, default flags,
+or the error) unchanged. -/
+theorem relayout_compose (cv : Conv) (items : List Item) (hraw : ∀ it ∈ items, it.raw = false)
+    (next : UInt8) {x y : Bytes} (h : Relayout items x y) :
+    parseRecord cv items x next = parseRecord cv items y next :=
+  OpmVerif.Scan.relayout_compose cv items hraw next h
+
+/-- a derivation with three different rules: expand `2*5`, turn a blank into a line break
+with a tab, append two `1*`. -/
+example : Relayout demoSchema (b " 'W 1' 2*5 ") (b " 'W 1'\n\t5 5  1* 1*") := by
+  have h1 : Relayout demoSchema (b " 'W 1' 2*5 ") (b " 'W 1' 5 5 ") := by
+    have h := Relayout.star (items := demoSchema) (b " 'W 1'") (b " ") (b "2*5") (b " ") [] [b "5", b "5"]
+      (by decide +kernel) (by decide +kernel) (by decide +kernel) (by decide +kernel) (by decide +kernel)
+      (by decide +kernel)
+      ⟨2, b "5", by decide +kernel, Or.inl ⟨by decide +kernel, by decide +kernel, by decide +kernel⟩⟩
+      (by decide +kernel) (by decide +kernel) (by decide +kernel)
+    have e1 : b " 'W 1'" ++ b " " ++ (b "2*5" ++ b " " ++ []) = b " 'W 1' 2*5 " := by decide +kernel
+    have e2 : b " 'W 1'" ++ b " " ++ (joinBlank [b "5", b "5"] ++ b " " ++ []) = b " 'W 1' 5 5 " := by decide +kernel
+    rw [e1, e2] at h; exact h
+  have h2 : Relayout demoSchema (b " 'W 1' 5 5 ") (b " 'W 1'\n\t5 5 ") := by
+    have h := Relayout.sep (items := demoSchema) (b " 'W 1'") (b " ") (b "\n\t") (b "5 5 ") (by decide +kernel)
+      (by decide +kernel) (by decide +kernel) (by decide +kernel) (by decide +kernel)
+    have e1 : b " 'W 1'" ++ b " " ++ b "5 5 " = b " 'W 1' 5 5 " := by decide +kernel
+    have e2 : b " 'W 1'" ++ b "\n\t" ++ b "5 5 " = b " 'W 1'\n\t5 5 " := by decide +kernel
+    rw [e1, e2] at h; exact h
+  have h3 : Relayout demoSchema (b " 'W 1'\n\t5 5 ") (b " 'W 1'\n\t5 5  1* 1*") := by
+    have h := Relayout.trail (items := demoSchema) (b " 'W 1'\n\t5 5 ") 2 47 (by decide +kernel) (by decide +kernel)
+      (by decide +kernel)
+    have e2 : b " 'W 1'\n\t5 5 " ++ 32 :: joinBlank (List.replicate 2 oneStar) = b " 'W 1'\n\t5 5  1* 1*" := by
+      decide +kernel
+    rw [e2] at h; exact h
+  exact Relayout.trans h1 (Relayout.trans h2 h3)
+
+example : parseRecord demoConv demoSchema (b " 'W 1' 2*5 ") 47 =
     some [[(.str (b "W 1"), .deck)], [(.int 5, .deck)], [(.int 5, .deck)], [(.int 9, .dflt)],
           [(.str (b "OPEN"), .dflt)], [(.dummy, .empty)], []] := by decide +kernel
 
